@@ -1442,3 +1442,52 @@ Proof.
   unfold SDgetattdatainfo_match at 1. rewrite (str_eqb_bytes name (snd (fst m))) || change (str_eqb name (snd (fst m))) with (bytes_eqb name (snd (fst m))).
   destruct (bytes_eqb (fst (fst m)) attr_class && bytes_eqb name (snd (fst m))); [reflexivity | exact IH].
 Qed.
+
+(* ================================================================================================== *)
+(** * 10. VSgetattdatainfo selects the attrindex-th attribute of the requested owner; sources of the modelled
+      raw-location functions *)
+
+Lemma vs_owner_test_spec : forall a b, VSgetattdatainfo_owner_test a b = if a =? b then 1 else 0.
+Proof. reflexivity. Qed.
+
+Lemma vs_search_text : VSgetattdatainfo_step = "vs_alist++;"%string /\ VSgetattdatainfo_attached = "vs_alist->aref"%string.
+Proof. split; reflexivity. Qed.
+
+Lemma vs_att_loop_spec : forall l f k a, a < k ->
+  vs_att_loop l f k a = nth_error (filter (fun e => va_findex e =? f) l) (Z.to_nat (k - a - 1)).
+Proof.
+  induction l as [|e t IH]; intros f k a Ha; cbn [vs_att_loop filter].
+  - destruct (Z.to_nat (k - a - 1)); reflexivity.
+  - rewrite vs_owner_test_spec. destruct (va_findex e =? f).
+    + change (1 =? 0) with false. cbv iota. destruct (a + 1 =? k) eqn:E.
+      * apply Z.eqb_eq in E. replace (Z.to_nat (k - a - 1)) with 0%nat by lia. reflexivity.
+      * apply Z.eqb_neq in E. rewrite IH by lia.
+        replace (Z.to_nat (k - a - 1)) with (S (Z.to_nat (k - (a + 1) - 1))) by lia. reflexivity.
+    + change (0 =? 0) with true. cbv iota. apply IH. exact Ha.
+Qed.
+
+Theorem vs_getattdatainfo_exact : forall alist f k, vs_getattdatainfo_entry alist f k = vsattr_nth alist f k.
+Proof.
+  intros alist f k. unfold vs_getattdatainfo_entry, vsattr_nth. destruct (k <? 0) eqn:E; [reflexivity|].
+  apply Z.ltb_ge in E. rewrite vs_att_loop_spec by lia. f_equal. lia.
+Qed.
+
+(** the hand-written models / specification clauses of the raw-location functions were written against exactly
+    these function bodies (SHA-256 of the body without comments and white space): an edit to any of them breaks this
+    lemma and the model has to be looked at again *)
+Lemma datainfo_sources_pinned :
+  HLgetdatainfo_src = "0ca8f6c9be7230963158bbb2f4b8910c4b101174804053a79ce2f5d4cf1e9b7f"%string /\
+  HMCgetdatainfo_src = "4a61ae083a854aa4d849055c52a2db8d198bcca10cae1a112eaba1f6f33c826c"%string /\
+  HDgetdatainfo_src = "72876229e63d89d6b4f9b592fa2f0a5fb72258613bd4c894cb506b126c103138"%string /\
+  VSgetdatainfo_src = "eafd7651805761f768495e0cbcd6b5dcf2e8acfb7eb2469bf3cc7b7c4252c5f4"%string /\
+  Vgetattdatainfo_src = "686bf2cca46ceea07c8465ff3a925926b3a9c116654ef09ce0c62a54fe872f29"%string /\
+  VSgetattdatainfo_src = "ef12b075210af77643df1a990d741c0ba72d109d9c86a1157e947980d81e1199"%string /\
+  GRgetattdatainfo_src = "a2956ef1be5dc9b7a08d64b77007826eb94074b137c003ab007c6710b47b6ace"%string /\
+  GRgetdatainfo_src = "11cc056b40b3dfe1e3783cdc2a57abadb51ccc48973e9f6effa7a84f7b861fd6"%string /\
+  GRgetpalinfo_src = "36378284fbbc5854f806928e1f583b807246ccb93f3680f8d4991d0443c7c360"%string /\
+  ANgetdatainfo_src = "a94aa22ca0637a9fc3fc3be950c1fa0e15fb6bec0693c0b109810d8afd9f8cd5"%string /\
+  SDgetdatainfo_src = "c7e3225752d32dc209adf190ea9595d285ddcd84995a199557ee1acc3c24e7b3"%string /\
+  SDgetattdatainfo_src = "26ce5769c26c979983480662bc3cb79707664650fcb7fbd0101e2eb3c4830090"%string /\
+  SDgetoldattdatainfo_src = "8819bb2e5b107c2a6b998ba1836522aa1da79eaa6deaf3fa3471b99f6c7f4602"%string /\
+  SDgetanndatainfo_src = "992d7cb55faa0a34af06c6753bd4da8984a32a198ebfea22e7698cd927ae2dbf"%string.
+Proof. repeat split; reflexivity. Qed.
